@@ -1806,12 +1806,16 @@ class GtkDocCommentBlockParser(object):
                                           'be ignored:',
                                           position, None, marker_pos, original_line)
                                 else:
+                                    if comment_block.annotations.position is None:
+                                        comment_block.annotations.position = position
                                     comment_block.annotations[ann_name] = docannotation
                     else:
                         ann_name, options = self._parse_annotation(position,
                                                                column_offset + tag_fields_start,
                                                                line,
                                                                '%s %s' % (ann_name, tag_fields))
+                        if comment_block.annotations.position is None:
+                            comment_block.annotations.position = position
                         comment_block.annotations[ann_name] = options
 
                     continue
